@@ -625,6 +625,9 @@ class Executor:
             k = self.eval(target.slice)
             if not (isinstance(k, VStr) and k.const is not None):
                 raise Unsupported("record key must be a string literal")
+            cur = st.obj(o.ref)["fields"].get(k.const)
+            if cur is not None and isinstance(v, (VEmptyList, VEmptyDict, VEmptySet)):
+                v = self.coerce(v, cur.ty, k.const)  # the literal takes the declared type of the field
             self.mark_escaped(v)
             st.set_field(o.ref, k.const, v)
             return
@@ -911,6 +914,30 @@ class Executor:
 
             def visit_Call(s, n):
                 f = n.func
+                MUT = ("append", "extend", "add", "update", "pop", "remove", "clear", "insert", "discard")
+                if isinstance(f, ast.Attribute) and f.attr in MUT and not isinstance(f.value, ast.Name):
+                    # in-place mutation of a container reached through an object: havoc that field
+                    recv = f.value
+                    if isinstance(recv, ast.Subscript) and isinstance(recv.slice, ast.Constant) and isinstance(recv.slice.value, str):
+                        try:
+                            o = ex.eval(recv.value)
+                        except Exception:
+                            o = None
+                        if isinstance(o, VRef) and ex.st.obj(o.ref)["kind"] == "rec":
+                            heap.add(("field", o.ref, recv.slice.value))
+                        else:
+                            raise Unsupported("loop body mutates a container through an unsupported path")
+                    elif isinstance(recv, ast.Attribute):
+                        try:
+                            o = ex.eval(recv.value)
+                        except Exception:
+                            o = None
+                        if isinstance(o, VRef) and ex.st.obj(o.ref)["kind"] == "obj":
+                            heap.add(("field", o.ref, recv.attr))
+                        else:
+                            raise Unsupported("loop body mutates a container through an unsupported path")
+                    else:
+                        raise Unsupported("loop body mutates a container through an unsupported path")
                 if isinstance(f, ast.Attribute):
                     root = f.value
                     if isinstance(root, ast.Name):
@@ -956,6 +983,9 @@ class Executor:
             return v
         if isinstance(v, VSet):
             return v.enum()
+        if isinstance(v, VFalseOr):
+            self.oblige("noraise.iterate_False", node, z3.Not(v.isfalse))
+            return self.as_sequence(v.val, node)
         raise Unsupported(f"iteration over {v.ty}")
 
     def dyn_keys_distinct(self, items):
